@@ -209,10 +209,11 @@ def create_src_file_exts_regex(input_exts: list[str] = []) -> Pattern[str]:
     try:
         EXPRESSIONS.extend(input_exts)
         # Add its expression as an OR and force they match the end of the string
-        return re.compile(rf"(({'$)|('.join(EXPRESSIONS)}$))")
+        # \Z, not $: a name that ends in a line break does not end in the suffix
+        return re.compile(rf"(({'\\Z)|('.join(EXPRESSIONS)}\Z))")
     except re.error:
         # TODO: Add a warning to the logger
-        return re.compile(rf"({DEFAULT}$)")
+        return re.compile(rf"({DEFAULT}\Z)")
 
 
 def create_src_file_exts_str(input_exts: list[str] = []) -> Pattern[str]:
